@@ -35,8 +35,9 @@ class IntegratorPoints(Points):
     def __init__(self, object_type: ObjectType, **kwargs):
         super().__init__(object_type, **kwargs)
 
-        self.entity_type.name = "Geoscience INTEGRATOR Points"
-        self.entity_type.description = "Geoscience INTEGRATOR Points"
+        if not self.on_file:
+            self.entity_type.name = "Geoscience INTEGRATOR Points"
+            self.entity_type.description = "Geoscience INTEGRATOR Points"
 
     @classmethod
     def default_type_uid(cls) -> uuid.UUID:
@@ -53,8 +54,9 @@ class NeighbourhoodSurface(Surface):
     def __init__(self, object_type: ObjectType, **kwargs):
         super().__init__(object_type, **kwargs)
 
-        self.entity_type.name = "Neighbourhood Surface"
-        self.entity_type.description = "Neighbourhood Surface"
+        if not self.on_file:
+            self.entity_type.name = "Neighbourhood Surface"
+            self.entity_type.description = "Neighbourhood Surface"
 
     @classmethod
     def default_type_uid(cls) -> uuid.UUID:
